@@ -249,7 +249,12 @@ def gen_handler(d):
     out.append("        #[scpi(cmd = %s)]" % rust_str(d["cmd"]))
     out.append("        pub %sfn h%d%s(&mut self%s) -> Result<%s, microscpi::Error> {"
                % ("async " if d["is_async"] else "", d["id"], generics, params, rty))
-    out.append("            self.log.push(call_entry(%d, &[%s]));" % (d["id"], tvals))
+    out.append("            if self.quiet {")
+    out.append("                self.ncalls += 1;")
+    out.append("            }")
+    out.append("            else {")
+    out.append("                self.log.push(call_entry(%d, &[%s]));" % (d["id"], tvals))
+    out.append("            }")
     if d["is_async"]:
         out.append("            if self.pend > 0 {")
         out.append("                pend(self.pend).await;")
@@ -272,6 +277,10 @@ def gen_iface(i):
     o.append("        pub log: Vec<String>,")
     o.append("        pub errs: Vec<String>,")
     o.append("        pub pend: usize,")
+    o.append("        /// Quiet mode (ALLOC ops): count calls and errors instead of recording them.")
+    o.append("        pub quiet: bool,")
+    o.append("        pub ncalls: usize,")
+    o.append("        pub nerrs: usize,")
     if i["E"]:
         o.append("        pub queue: RecQueue<%d>," % i["qcap"])
     o.append("    }")
@@ -285,7 +294,12 @@ def gen_iface(i):
     else:
         o.append("    impl microscpi::ErrorHandler for %s {" % ty)
         o.append("        fn handle_error(&mut self, error: microscpi::Error) {")
-        o.append("            self.errs.push(fmt_err(error));")
+        o.append("            if self.quiet {")
+        o.append("                self.nerrs += 1;")
+        o.append("            }")
+        o.append("            else {")
+        o.append("                self.errs.push(fmt_err(error));")
+        o.append("            }")
         o.append("        }")
         o.append("    }")
     o.append("")
@@ -326,6 +340,11 @@ def gen_iface(i):
     o.append("        fn set_pend(&mut self, k: usize) {")
     o.append("            self.pend = k;")
     o.append("        }")
+    o.append("        fn set_quiet(&mut self, quiet: bool) {")
+    o.append("            self.quiet = quiet;")
+    if i["E"]:
+        o.append("            self.queue.quiet = quiet;")
+    o.append("        }")
     o.append("    }")
     o.append("}")
     o.append("pub use m_%s::%s;" % (name, ty))
@@ -362,6 +381,18 @@ def gen_dispatch(ifaces):
     o.append("pub const PROC_BASIC: [usize; %d] = [%s];" % (len(PROC_BASIC), ", ".join(map(str, PROC_BASIC))))
     o.append("")
 
+    o.append("/// Whether some handler of the interface allocates by itself (`const:sstr:…`")
+    o.append("/// builds a `std::string::String`); `ALLOC` ops refuse such an interface")
+    o.append("/// because the count would include the harness's own allocation.")
+    o.append("pub fn handlers_allocate(name: &str) -> Option<bool> {")
+    o.append("    match name {")
+    for i in ifaces:
+        allocates = any(d["beh"].startswith("const:sstr:") for d in i["decls"])
+        o.append("        \"%s\" => Some(%s)," % (i["name"], "true" if allocates else "false"))
+    o.append("        _ => None,")
+    o.append("    }")
+    o.append("}")
+    o.append("")
     o.append("/// RUN: selects interface and writer type.")
     o.append("pub fn run_dispatch(name: &str, writer: WriterSel, req: &RunReq) -> String {")
     o.append("    match name {")
